@@ -208,8 +208,10 @@ class ShallowWaterEquations(time_integration.ImplicitExplicitODE):
   def explicit_terms(self, state: State) -> State:
     """Computes explicit tendencies of the shallow water equations."""
     # we stack two components of the velocity to transform them together.
+    # do not clip: the wind of a state truncated below the top wavenumber has a
+    # genuine component at the top wavenumber.
     u = jnp.stack(spherical_harmonic.get_cos_lat_vector(
-        state.vorticity, state.divergence, self.coords.horizontal))
+        state.vorticity, state.divergence, self.coords.horizontal, clip=False))
 
     # Switch to physical coordinates for spatial point-wise operations
     nodal_u = self.coords.horizontal.to_nodal(u)
